@@ -32,8 +32,9 @@ class FieldCompositeModel(FieldModel):
         super().__init__(name)
         # Captures whether this field was declared rand
         self.is_declared_rand = is_rand
-        # Captures whether this field is being used as rand
-        self.is_used_rand = is_rand
+        # Captures whether this field is being used as rand. This
+        # is only the case for the duration of a randomize call
+        self.is_used_rand = False
         self.rand_mode = is_rand
         self.rand_if = rand_if
         self.field_l = []
